@@ -1,3 +1,238 @@
-// C11 part of utf_harness.cpp (included once)
-static int ModeC11Table(const char*, const char*) { return 3; }
-static int ModeC11Seq(int, unsigned, int) { return 3; }
+// C11 part of utf_harness.cpp (included once).
+// c11table: for every row {cp, u8, u16le, u16be, u32le, u32be} (byte sequences computed by TLC from Unicode.tla) the scalar value
+//   is pushed through all 20 ordered scheme pairs (A::Decode into a native string of A's and of B's width, then B::Encode; plus
+//   Utf::Transcode and Convert::To between std::string/u16string/u32string/wstring for the native-order pairs), both policies,
+//   always appended to a non-empty output.  Logged per scalar value: for each target scheme the DISTINCT byte strings produced
+//   (first one under the scheme's key, any further ones under "x"), and the DISTINCT (ErrorCode, Iterator at end, count) triples.
+//   The comparison with TLC's table is plain equality, done outside.
+// c11seq: seeded random sequences of scalar values (planes mixed, U+0000, U+FFFF, U+10FFFF, U+FEFF inside the text); source is the
+//   UTF-32 sequence itself; every conversion logs its input units and output units for judgement by Trace_Unicode11.
+
+static const char* kSchemes[5] = { "u8", "u16le", "u16be", "u32le", "u32be" };
+static const int kWidth[5] = { 1, 2, 2, 4, 4 };
+
+struct C11Acc
+{
+	std::vector<std::string> outs[5];       // distinct output byte strings per target scheme
+	std::vector<std::string> results;       // distinct "[code,atEnd,cnt]"
+	void Out(int b, const std::string& bytes) { auto& v = outs[b]; for (auto& e : v) if (e == bytes) return; v.push_back(bytes); }
+	template <class TRes, class TEnd> void Res(const TRes& r, TEnd end)
+	{
+		std::string s = "[" + std::to_string(static_cast<int>(r.ErrorCode)) + "," + (r.Iterator == end ? "1" : "0") + "," + std::to_string(r.InvalidSequencesCount) + "]";
+		for (auto& e : results) if (e == s) return;
+		results.push_back(s);
+	}
+	void ResText(const std::string& s) { for (auto& e : results) if (e == s) return; results.push_back(s); }
+};
+
+template <class TChar> static std::basic_string<TChar> FromBytes(const std::string& b)
+{
+	std::basic_string<TChar> s(b.size() / sizeof(TChar), TChar());
+	std::memcpy(s.data(), b.data(), s.size() * sizeof(TChar));
+	return s;
+}
+template <class TStr> static std::string ToBytes(const TStr& s, size_t from)
+{
+	return std::string(reinterpret_cast<const char*>(s.data() + from), (s.size() - from) * sizeof(s[0]));
+}
+
+template <int A, class TChar, class TOut>
+static auto DecodeBy(const std::basic_string<TChar>& src, std::basic_string<TOut>& out, UtfEncodingErrorPolicy pol)
+{
+	const TChar* b = src.data(); const TChar* e = b + src.size();
+	if constexpr (A == 0) return Utf::Utf8::Decode(b, e, out, pol);
+	else if constexpr (A == 1) return Utf::Utf16Le::Decode(b, e, out, pol);
+	else if constexpr (A == 2) return Utf::Utf16Be::Decode(b, e, out, pol);
+	else if constexpr (A == 3) return Utf::Utf32Le::Decode(b, e, out, pol);
+	else return Utf::Utf32Be::Decode(b, e, out, pol);
+}
+template <int B, class TChar, class TOut>
+static auto EncodeBy(const std::basic_string<TChar>& src, std::basic_string<TOut>& out, UtfEncodingErrorPolicy pol)
+{
+	const TChar* b = src.data(); const TChar* e = b + src.size();
+	if constexpr (B == 0) return Utf::Utf8::Encode(b, e, out, pol);
+	else if constexpr (B == 1) return Utf::Utf16Le::Encode(b, e, out, pol);
+	else if constexpr (B == 2) return Utf::Utf16Be::Encode(b, e, out, pol);
+	else if constexpr (B == 3) return Utf::Utf32Le::Encode(b, e, out, pol);
+	else return Utf::Utf32Be::Encode(b, e, out, pol);
+}
+template <int S> using CharOf = std::conditional_t<S == 0, char, std::conditional_t<(S == 1 || S == 2), char16_t, char32_t>>;
+
+// A -> (native string of width W) -> B
+template <int A, int B, class TMid>
+static void ViaMid(C11Acc& acc, const std::string& srcBytes, UtfEncodingErrorPolicy pol)
+{
+	using TA = CharOf<A>; using TB = CharOf<B>;
+	const auto src = FromBytes<TA>(srcBytes);
+	std::basic_string<TMid> mid(1, static_cast<TMid>('x'));
+	// Utf8 has no same-width Decode (8 -> 8 is not offered by the class): an 8-bit middle string is the source itself
+	if constexpr (A == 0 && sizeof(TMid) == 1) { mid.append(src.begin(), src.end()); }
+	else { const auto r = DecodeBy<A>(src, mid, pol); acc.Res(r, src.data() + src.size()); }
+	const std::basic_string<TMid> midText = mid.substr(1);
+	std::basic_string<TB> out(1, static_cast<TB>('x'));
+	if constexpr (B == 0 && sizeof(TMid) == 1) { out.append(midText.begin(), midText.end()); }
+	else { const auto r = EncodeBy<B>(midText, out, pol); acc.Res(r, midText.data() + midText.size()); }
+	if (out.empty() || out[0] != static_cast<TB>('x')) acc.ResText("\"prefix damaged\"");
+	acc.Out(B, ToBytes(out, 1));
+}
+
+template <int A, int B>
+static void Pair(C11Acc& acc, const std::string bytes[5])
+{
+	if constexpr (A != B)
+	{
+		for (auto pol : { UtfEncodingErrorPolicy::Skip, UtfEncodingErrorPolicy::ThrowError })
+		{
+			ViaMid<A, B, CharOf<A>>(acc, bytes[A], pol);
+			if constexpr (sizeof(CharOf<A>) != sizeof(CharOf<B>)) ViaMid<A, B, CharOf<B>>(acc, bytes[A], pol);
+			// native-order pairs: Utf::Transcode
+			if constexpr ((A == 0 || A == 1 || A == 3) && (B == 0 || B == 1 || B == 3))
+			{
+				const auto src = FromBytes<CharOf<A>>(bytes[A]);
+				std::basic_string<CharOf<B>> out(1, static_cast<CharOf<B>>('x'));
+				const auto r = Utf::Transcode(src.data(), src.data() + src.size(), out, pol);
+				acc.Res(r, src.data() + src.size());
+				acc.Out(B, ToBytes(out, 1));
+				std::basic_string<CharOf<B>> out2(1, static_cast<CharOf<B>>('x'));
+				const std::basic_string_view<CharOf<A>> sv(src);
+				const auto r2 = Utf::Transcode(sv, out2, pol);
+				acc.Res(r2, sv.cend());
+				acc.Out(B, ToBytes(out2, 1));
+			}
+		}
+	}
+}
+
+template <int A, int... Bs> static void PairsFrom(C11Acc& acc, const std::string bytes[5]) { (Pair<A, Bs>(acc, bytes), ...); }
+
+template <class TDst, class TSrc>
+static void ConvertTo(C11Acc& acc, int targetScheme, const TSrc& src)
+{
+	try {
+		TDst existing(1, static_cast<typename TDst::value_type>('x'));
+		const TDst out = BitSerializer::Convert::To<TDst>(src, existing);
+		if (out.empty() || out[0] != static_cast<typename TDst::value_type>('x')) acc.ResText("\"prefix damaged\"");
+		acc.Out(targetScheme, ToBytes(out, 1));
+		const TDst fresh = BitSerializer::Convert::To<TDst>(src);
+		acc.Out(targetScheme, ToBytes(fresh, 0));
+	}
+	catch (const std::exception& ex) {
+		acc.ResText(std::string("\"Convert::To threw: ") + vh::JsonEscape(ex.what()) + "\"");
+	}
+}
+
+static std::string BytesArr(const std::string& s) { return vh::BytesJson(s); }
+
+static int ModeC11Table(const char* tablePath, const char* outPath)
+{
+	FILE* out = fopen(outPath, "w");
+	if (!out) { fprintf(stderr, "cannot write %s\n", outPath); return 3; }
+	std::ifstream f(tablePath, std::ios::binary);
+	if (!f) { fprintf(stderr, "cannot open %s\n", tablePath); return 3; }
+	std::string lineIn;
+	while (std::getline(f, lineIn))
+	{
+		if (lineIn.empty()) continue;
+		rapidjson::Document d;
+		d.Parse(lineIn.c_str());
+		const long cp = d["cp"].GetInt();
+		std::string bytes[5];
+		for (int s = 0; s < 5; ++s) bytes[s] = vh::BytesFromJson(d[kSchemes[s]]);
+		C11Acc acc;
+		Arm("c11 cp " + std::to_string(cp));
+		PairsFrom<0, 0, 1, 2, 3, 4>(acc, bytes);
+		PairsFrom<1, 0, 1, 2, 3, 4>(acc, bytes);
+		PairsFrom<2, 0, 1, 2, 3, 4>(acc, bytes);
+		PairsFrom<3, 0, 1, 2, 3, 4>(acc, bytes);
+		PairsFrom<4, 0, 1, 2, 3, 4>(acc, bytes);
+		// Convert::To between the four string types (native byte order)
+		const std::string s8 = bytes[0];
+		const std::u16string s16 = FromBytes<char16_t>(bytes[1]);
+		const std::u32string s32 = FromBytes<char32_t>(bytes[3]);
+		const std::wstring sw = FromBytes<wchar_t>(bytes[3]);
+		ConvertTo<std::string>(acc, 0, s16); ConvertTo<std::string>(acc, 0, s32); ConvertTo<std::string>(acc, 0, sw); ConvertTo<std::string>(acc, 0, s8);
+		ConvertTo<std::u16string>(acc, 1, s8); ConvertTo<std::u16string>(acc, 1, s32); ConvertTo<std::u16string>(acc, 1, sw); ConvertTo<std::u16string>(acc, 1, s16);
+		ConvertTo<std::u32string>(acc, 3, s8); ConvertTo<std::u32string>(acc, 3, s16); ConvertTo<std::u32string>(acc, 3, sw); ConvertTo<std::u32string>(acc, 3, s32);
+		ConvertTo<std::wstring>(acc, 3, s8); ConvertTo<std::wstring>(acc, 3, s16); ConvertTo<std::wstring>(acc, 3, s32); ConvertTo<std::wstring>(acc, 3, sw);
+		alarm(0);
+		std::string line = "{\"cp\":" + std::to_string(cp);
+		std::string extra;
+		for (int s = 0; s < 5; ++s)
+		{
+			line += std::string(",\"") + kSchemes[s] + "\":" + (acc.outs[s].empty() ? "null" : BytesArr(acc.outs[s][0]));
+			for (size_t k = 1; k < acc.outs[s].size(); ++k) extra += std::string(extra.empty() ? "" : ",") + "{\"" + kSchemes[s] + "\":" + BytesArr(acc.outs[s][k]) + "}";
+		}
+		line += ",\"x\":[" + extra + "],\"r\":[";
+		for (size_t k = 0; k < acc.results.size(); ++k) line += (k ? "," : "") + acc.results[k];
+		line += "]}\n";
+		fputs(line.c_str(), out);
+	}
+	fclose(out);
+	return 0;
+}
+
+//------------------------------------------------------------------------------------------------
+template <class TIn, class TOut, class TCall>
+static void SeqConv(const std::string& id, const char* api, const char* pol, const std::basic_string<TIn>& src, bool inSwapped, bool outSwapped, TCall&& call, std::basic_string<TOut>* keep = nullptr)
+{
+	std::basic_string<TOut> out(1, static_cast<TOut>('x'));
+	const auto r = call(out);
+	std::string line = "{\"id\":\"" + id + "\",\"api\":\"" + api + "\",\"pol\":\"" + pol + "\",\"sf\":" + std::to_string(sizeof(TIn) * 8) + ",\"tw\":" + std::to_string(sizeof(TOut) * 8) +
+		",\"u\":" + UnitsJson(src, inSwapped ? 0 : static_cast<size_t>(-1)) + ",\"out\":" + UnitsJson(out, outSwapped ? 1 : static_cast<size_t>(-1)) +
+		",\"code\":\"" + CodeName(std::get<0>(r)) + "\",\"it\":" + std::to_string(std::get<1>(r)) + ",\"cnt\":" + std::to_string(std::get<2>(r)) + "}\n";
+	fputs(line.c_str(), stdout);
+	if (keep) *keep = out.substr(1);
+}
+
+#define SEQ_CALL(EXPR, BEGIN) [&](auto& out) { auto r = EXPR; return std::make_tuple(r.ErrorCode, static_cast<long>(r.Iterator - (BEGIN)), r.InvalidSequencesCount); }
+
+static int ModeC11Seq(int count, unsigned seed, int maxLen)
+{
+	std::mt19937 rng(seed);
+	auto scalar = [&rng]() -> char32_t {
+		switch (rng() % 12) {
+		case 0: return 0;
+		case 1: return 0xFFFF;
+		case 2: return 0x10FFFF;
+		case 3: return 0xFEFF;
+		case 4: { static const char32_t b[] = { 0x7F, 0x80, 0x7FF, 0x800, 0xD7FF, 0xE000, 0xFFFD, 0x10000, 0xFFFE }; return b[rng() % 9]; }
+		case 5: return rng() % 0x80;
+		case 6: return 0x80 + rng() % 0x780;
+		case 7: case 8: { char32_t c = 0x800 + rng() % 0xF800; if (c >= 0xD800 && c <= 0xDFFF) c = 0xE000 + (c & 0x7FF); return c; }
+		default: return 0x10000 + rng() % 0x100000;
+		}
+	};
+	for (int n = 0; n < count; ++n)
+	{
+		size_t len;
+		switch (rng() % 5) { case 0: len = rng() % 4; break; case 1: len = static_cast<size_t>(maxLen); break; case 2: len = rng() % 64; break; default: len = rng() % (static_cast<size_t>(maxLen) + 1); break; }
+		std::u32string s32;
+		for (size_t i = 0; i < len; ++i) s32.push_back(scalar());
+		const std::string id = "q" + std::to_string(n);
+		Arm("c11seq " + id);
+		const auto P = (n % 2) ? UtfEncodingErrorPolicy::ThrowError : UtfEncodingErrorPolicy::Skip;
+		const char* pol = (n % 2) ? "throw" : "def";
+		const char32_t* b32 = s32.data(); const char32_t* e32 = b32 + s32.size();
+		std::string s8; std::u16string s16; std::u16string s16be; std::u32string s32be;
+		SeqConv<char32_t, char>(id, "Utf8::Encode", pol, s32, false, false, SEQ_CALL(Utf::Utf8::Encode(b32, e32, out, P), b32), &s8);
+		SeqConv<char32_t, char16_t>(id, "Utf16Le::Encode", pol, s32, false, false, SEQ_CALL(Utf::Utf16Le::Encode(b32, e32, out, P), b32), &s16);
+		SeqConv<char32_t, char16_t>(id, "Utf16Be::Encode", pol, s32, false, true, SEQ_CALL(Utf::Utf16Be::Encode(b32, e32, out, P), b32), &s16be);
+		SeqConv<char32_t, char>(id, "Transcode", pol, s32, false, false, SEQ_CALL(Utf::Transcode(b32, e32, out, P), b32));
+		const char* b8 = s8.data(); const char* e8 = b8 + s8.size();
+		const char16_t* b16 = s16.data(); const char16_t* e16 = b16 + s16.size();
+		const char16_t* bb16 = s16be.data(); const char16_t* be16 = bb16 + s16be.size();
+		SeqConv<char, char16_t>(id, "Utf8::Decode", pol, s8, false, false, SEQ_CALL(Utf::Utf8::Decode(b8, e8, out, P), b8));
+		SeqConv<char, char32_t>(id, "Utf32Le::Encode", pol, s8, false, false, SEQ_CALL(Utf::Utf32Le::Encode(b8, e8, out, P), b8));
+		SeqConv<char, char32_t>(id, "Utf32Be::Encode", pol, s8, false, true, SEQ_CALL(Utf::Utf32Be::Encode(b8, e8, out, P), b8), &s32be);
+		SeqConv<char, char16_t>(id, "Transcode", pol, s8, false, false, SEQ_CALL(Utf::Transcode(b8, e8, out, P), b8));
+		SeqConv<char16_t, char>(id, "Utf16Le::Decode", pol, s16, false, false, SEQ_CALL(Utf::Utf16Le::Decode(b16, e16, out, P), b16));
+		SeqConv<char16_t, char32_t>(id, "Utf16::Decode", pol, s16, false, false, SEQ_CALL(Utf::Utf16::Decode(b16, e16, out, P), b16));
+		SeqConv<char16_t, char>(id, "Utf16Be::Decode", pol, s16be, true, false, SEQ_CALL(Utf::Utf16Be::Decode(bb16, be16, out, P), bb16));
+		SeqConv<char16_t, char32_t>(id, "Utf16Be::Decode", pol, s16be, true, false, SEQ_CALL(Utf::Utf16Be::Decode(bb16, be16, out, P), bb16));
+		const char32_t* bb32 = s32be.data(); const char32_t* be32 = bb32 + s32be.size();
+		SeqConv<char32_t, char16_t>(id, "Utf32Be::Decode", pol, s32be, true, false, SEQ_CALL(Utf::Utf32Be::Decode(bb32, be32, out, P), bb32));
+		SeqConv<char32_t, char>(id, "Utf32Be::Decode", pol, s32be, true, false, SEQ_CALL(Utf::Utf32Be::Decode(bb32, be32, out, P), bb32));
+		alarm(0);
+	}
+	return 0;
+}
